@@ -319,6 +319,14 @@ class Stats:
                 self.samples.append(s)
 
 
+max_spin_all = [0]
+
+
+def _max_spin():
+    from . import vloop
+    return vloop.max_spin_seen[0]
+
+
 def _get_prop(prop_id):
     import importlib
     return importlib.import_module('vlib.props.' + prop_id.lower())
@@ -365,7 +373,8 @@ def _hyp_worker(args):
             failed = None
         except (CaseFailed, ShrinkTimeout):
             failed = dict(failing)
-        return dict(ok=True, stats=stats, failed=failed, max_steps=max_steps_seen[0])
+        return dict(ok=True, stats=stats, failed=failed, max_steps=max_steps_seen[0],
+                    max_spin=_max_spin())
     except BaseException:
         return dict(ok=False, error=traceback.format_exc())
 
@@ -388,7 +397,8 @@ def _sweep_worker(args):
                 # where a call loops, every further case would cost minutes)
                 failed = dict(case=res.replay_case or case, violations=[v.as_dict() for v in bad])
                 break
-        return dict(ok=True, stats=stats, failed=failed, name=name, max_steps=max_steps_seen[0])
+        return dict(ok=True, stats=stats, failed=failed, name=name, max_steps=max_steps_seen[0],
+                    max_spin=_max_spin())
     except BaseException:
         return dict(ok=False, error=traceback.format_exc())
 
@@ -510,6 +520,7 @@ def run_property(prop_id, tier, seed, replay=None, jobs=None, out=sys.stdout,
                     continue
                 total.merge(r['stats'])
                 max_steps_seen[0] = max(max_steps_seen[0], r.get('max_steps', 0))
+                max_spin_all[0] = max(max_spin_all[0], r.get('max_spin', 0))
                 if r['failed']:
                     path = write_finding(prop_id, r['failed']['case'],
                                          r['failed']['violations'],
@@ -547,6 +558,10 @@ def run_property(prop_id, tier, seed, replay=None, jobs=None, out=sys.stdout,
         generated_budget=examples,
         workers=jobs,
     )
+    if max_spin_all[0]:
+        # virtual-time loop: most iterations spent within one instant by any case (the loop
+        # gives up, as for its horizon, after vloop.SPIN_LIMIT)
+        coverage['max_loop_iterations_within_one_instant'] = max_spin_all[0]
     if exhaustive_parts:
         coverage['exhaustive'] = not examples
         coverage['exhaustive_parts'] = exhaustive_parts
